@@ -23,7 +23,7 @@ func catSetup() {
 	if len(catFns) == 0 {
 		return
 	}
-	catSpecs = CatalogSpecs(catSeed)
+	catSpecs = FrozenCatalog()
 	if len(catSpecs) != len(catFns) {
 		panic(fmt.Sprintf("catalogue out of date: %d specs, %d functions; run `digsim gencat`", len(catSpecs), len(catFns)))
 	}
